@@ -72,7 +72,10 @@ type c14Case struct {
 	UserSet  bool   `json:"user_identity_set"`
 	Bridge   bool   `json:"bridge_config"`
 	Unmerged bool   `json:"fetched_unmerged_entity"` // wipe: a remote entity was fetched and never merged
-	PreCache bool   `json:"cache_built_before"`      // entity API: a cache existed before the removal (informational)
+	// stock git packed the refs (`git pack-refs --all`, as gc does) after the repository was built and before the removal:
+	// the refs of the victim live in .git/packed-refs, not in files of their own
+	Packed   bool `json:"refs_packed_before_the_removal,omitempty"`
+	PreCache bool `json:"cache_built_before"` // entity API: a cache existed before the removal (informational)
 	// State of the victim when it is removed (single-entity removals only; needs a holding remote unless empty):
 	//   ""                 it exists locally (+ one remote-tracking ref per holding remote)
 	//   fetched-unmerged   it was created elsewhere, fetched from the holding remotes and never merged: remote-tracking refs only
@@ -2519,10 +2522,20 @@ func c14Run(cs c14Case) c14Result {
 	if cs.Select != "" {
 		res.Shape += "/selected=" + cs.Select + map[bool]string{true: "/unknown-ids-after", false: ""}[cs.BadIdsAfter]
 	}
+	if cs.Packed {
+		res.Shape += "/packed-refs"
+	}
 	res.Shape += c14ScaleShape(cs)
 	if err := e.build(); err != nil {
 		res.HarnessError = "build: " + err.Error()
 		return finish()
+	}
+	if cs.Packed {
+		if out, err := gitOut(e.T.Dir, "pack-refs", "--all"); err != nil {
+			res.HarnessError = "git pack-refs: " + err.Error() + " " + out
+			return finish()
+		}
+		e.count("cases_with_refs_packed_before_the_removal", 1)
 	}
 	e.count("other_entities", len(e.bugIds)+len(e.identIds)-1)
 	e.seen("remote_configurations", fmt.Sprintf("remotes=%d holds=%03b", cs.Remotes, cs.Holds))
@@ -2606,6 +2619,7 @@ func c14Cases(r *mon.Run) []c14Case {
 			Point:  (a + 2*b) % 3,
 			Others: 2 + rng.Intn(9),
 			Prefix: []string{"full", "shortest", "human"}[rng.Intn(3)],
+			Packed: i%3 == 2,
 		}
 		// engineered shared prefixes: 1..3 of the others, 1..4 characters (quick: the 4-character one in every other case)
 		ks := []int{1, 2, 3, 4}
